@@ -42,7 +42,7 @@ def sh_iv(x, n, scale, M):
     return D.interval(float(x), factorial(n) * scale, rel_ulps=8, mag=2 * M, tight=True)
 
 
-def shapley_trace(tid, n, v, partner=None):
+def shapley_trace(tid, n, v, partner=None, graph=None):
     """partner: values of another game of the same size whose all-players computation is consumed in lock-step with this one."""
     scale = scale_of(v)
     M = max(1.0, max(abs(x) for x in v))
@@ -50,7 +50,7 @@ def shapley_trace(tid, n, v, partner=None):
          "sh_all": [], "sh_one": [], "entry_bits": 1, "en": [0, 0], "maxsh": [], "sh_w": [], "exc": "", "mg": [], "lo_after": [], "up_after": [],
          "en_after": [0, 0]}
     try:
-        g = full_game(n, v)
+        g = graph if graph is not None else full_game(n, v)
         if partner is None:
             allv = list(compute_shapley_value(g))
         else:
@@ -165,7 +165,17 @@ def main():
                 if j % 7 == 6:
                     v = [x * 2.0 ** -30 for x in v]          # very small magnitude
                 partner = [0.0] + [float(rv()) for _ in range(NC - 1)] if j % 3 == 1 else None
-                traces.append(shapley_trace(tid, n, v, partner))
+                graph = None
+                if j % 8 == 7 and n >= 2:           # a graph game (another implementation of the Game protocol)
+                    from incomplete_cooperative.graph_game import GraphCooperativeGame
+                    m = np.zeros((n, n))
+                    for a_ in range(n):
+                        for b_ in range(a_ + 1, n):
+                            m[a_, b_] = rng.randint(0, 4)
+                    graph = GraphCooperativeGame(m)
+                    v = [float(x) for x in graph.get_values()]
+                    partner = None
+                traces.append(shapley_trace(tid, n, v, partner, graph))
         else:
             if n <= a.unit_max_n:
                 for s in range(1, NC - 1):                # unit bound vectors (grand coalition known 0, empty 0)
